@@ -75,7 +75,7 @@ fn long(name: String, params: Value) -> Scenario {
         sys.bring_up(vec![]);
         if pattern == 4 {
             // One QoS 1 publish stays outstanding while 70 000 requests that need NO identifier (QoS 0
-            // publishes, pings) and a few dozen that do go by: far fewer than 65535 identifiers are
+            // publishes - more than 65535 of them -, pings) and a few dozen that do go by: far fewer than 65535 identifiers are
             // allocated meanwhile, so nobody may be given the outstanding one.
             sys.apply(Ev::Start(OpSpec::Publish(PublishSpec::simple(1, "t/anchor", b"held open"))));
             let anchor = sys.m.ops.len() - 1;
@@ -88,7 +88,7 @@ fn long(name: String, params: Value) -> Scenario {
                     sys.apply(Ev::Start(OpSpec::Publish(PublishSpec::simple(1 + (i % 2) as u8, "t", b"a"))));
                     let op = sys.m.ops.len() - 1;
                     finish_op(&mut sys, op);
-                } else if (i + extra) % 3 == 0 {
+                } else if (i + extra) % 50 == 0 {
                     sys.apply(Ev::Start(OpSpec::Ping));
                     sys.apply(Ev::Deliver(SPacket::Pingresp));
                 } else {
